@@ -771,7 +771,7 @@ def len_of(self, v):
         return len(v.items)
     if isinstance(v, Sym):
         if v.ty in ("bytes", "str") or (isinstance(v.ty, tuple) and v.ty[0] == "seq"):
-            return self.wrap(z3.Length(v.t), "int")
+            return self.wrap(zu.smart_len(v.t), "int")
         if isinstance(v.ty, tuple) and v.ty[0] == "tuple":
             return len(v.ty[1])
     if isinstance(v, PList):
@@ -1041,6 +1041,8 @@ def eval_comprehension(self, node):
 
 def do_getattr(self, obj, name):
     from .interp import ClassM, Prop, StaticM, TaskM
+    if name == "__class__" and not isinstance(obj, PObj):
+        return self.call(self.builtins["type"], [obj], {})
     if isinstance(obj, PObj):
         if name in obj.fields:
             return obj.fields[name]
